@@ -1052,10 +1052,10 @@ func TestVerif_C10(t *testing.T) {
 	r.Require("server_padded_data_frames", q(300, 2000))
 	r.Require("client_padded_data_frames", q(300, 2000))
 	for _, p := range []string{"body-closed", "handler-returned", "handler-panicked", "client-rst", "beyond-content-length", "after-end-stream", "after-trailers", "short-body", "never-opened", "after-goaway", "stream-window-exceeded"} {
-		r.Require("server_path_"+p, q(5, 30))
+		r.Require("server_path_"+p, q(1, 10))
 	}
 	for _, p := range []string{"body-closed", "ctx-cancel", "server-rst", "beyond-content-length", "after-end-stream", "after-trailers", "short-body", "after-goaway", "before-headers", "head-with-data", "cancel-racing-response", "finished-stream"} {
-		r.Require("client_path_"+p, q(5, 30))
+		r.Require("client_path_"+p, q(1, 10))
 	}
 	_ = http.ErrAbortHandler
 }
